@@ -336,7 +336,11 @@ theorem C14_data_column (L : LasCurves) (rows : List (List Cell)) (h : L.dataVie
     (∀ d ∈ L.data, d.length = rows.length) := by
   unfold LasCurves.dataView at h
   cases hdat : L.data with
-  | nil => rw [hdat] at h; simp at h
+  | nil =>
+    rw [hdat] at h
+    injection h with h
+    subst h
+    simp
   | cons d0 ds =>
     rw [hdat] at h
     simp only [] at h
@@ -375,20 +379,23 @@ theorem C14_data_column (L : LasCurves) (rows : List (List Cell)) (h : L.dataVie
         simp [hlen d hd]
     · simp at h
 
-/-- … and it raises ValueError exactly when there is no curve or the arrays have different lengths -/
+/-- … and it raises (ValueError) exactly when two arrays have different lengths; without curves it is the empty
+2-D array -/
 theorem C14_data_error (L : LasCurves) :
-    (∃ e, L.dataView = .error e) ↔ (L.data = [] ∨ ∃ a ∈ L.data, ∃ b ∈ L.data, a.length ≠ b.length) := by
+    (∃ e, L.dataView = .error e) ↔ (∃ a ∈ L.data, ∃ b ∈ L.data, a.length ≠ b.length) := by
   unfold LasCurves.dataView
   cases hdat : L.data with
-  | nil => simp
+  | nil =>
+    constructor
+    · rintro ⟨e, he⟩; cases he
+    · rintro ⟨a, ha, _⟩; cases ha
   | cons d0 ds =>
     simp only []
     by_cases hall : ds.all (fun x => x.length == d0.length) = true
     · simp only [hall, if_true]
       constructor
       · rintro ⟨e, he⟩; cases he
-      · rintro (h | ⟨a, ha, b, hb, hne⟩)
-        · cases h
+      · rintro ⟨a, ha, b, hb, hne⟩
         · exfalso
           have hl : ∀ d ∈ d0 :: ds, d.length = d0.length := by
             intro d hd
@@ -397,7 +404,7 @@ theorem C14_data_error (L : LasCurves) :
             · simpa using (List.all_eq_true.mp hall) d hd
           exact hne ((hl a ha).trans (hl b hb).symm)
     · simp only [hall, Bool.false_eq_true, if_false]
-      refine ⟨fun _ => Or.inr ?_, fun _ => ⟨_, rfl⟩⟩
+      refine ⟨fun _ => ?_, fun _ => ⟨_, rfl⟩⟩
       rw [List.all_eq_true] at hall
       obtain ⟨x, hx⟩ := Classical.not_forall.mp hall
       have hx1 : x ∈ ds := Classical.byContradiction (fun hn => hx (fun hm => absurd hm hn))
